@@ -349,8 +349,9 @@ func NewSQLiteStore(dbPath string, opts ...SQLiteOption) (*SQLiteStore, error) {
 		pollInterval:       25 * time.Millisecond,
 		dropPolicy:         "reject",
 		metrics:            newSQLiteRuntimeMetrics(),
-		checkpointInterval: verifhook.DurationOr("VERIF_SQLITE_CHECKPOINT_MS", defaultSQLiteCheckpointInterval),
+		checkpointInterval: defaultSQLiteCheckpointInterval,
 	}
+	s.checkpointInterval = verifhook.DurationOr("VERIF_SQLITE_CHECKPOINT_MS", s.checkpointInterval)
 	for _, opt := range opts {
 		opt(s)
 	}
